@@ -269,7 +269,41 @@ def gen(rng):
     return spec, kind
 
 
+def planck_grid_types(ctx, rng):
+    """the Planck function the models and the star use, on wavenumber grids of every numeric type an opacity file may
+    carry (float64, float32, integers): the value is that of the real-number formula in each case"""
+    from taurex.util.emission import black_body
+    from taurex.constants import PLANCK, SPDLIGT, KBOLTZ
+    for k in range(6):
+        lo, step, n = rng.randint(200, 900), rng.randint(40, 400), rng.randint(5, 60)
+        grid = np.arange(lo, lo + step * n, step)              # integer dtype, up to ~25000 cm-1
+        T = rng.uniform(300, 3000) if k else 2500.0
+        wl = 10000.0 / grid.astype(float)
+        lam = wl * 1e-6
+        want = (np.pi * 2.0 * PLANCK * SPDLIGT ** 2 / lam ** 5) / (np.exp(PLANCK * SPDLIGT / (lam * KBOLTZ * T)) - 1) * 1e-6
+        for name, g in (('int64', grid.astype(np.int64)), ('int32', grid.astype(np.int32)), ('float32', grid.astype(np.float32)),
+                        ('float64', grid.astype(np.float64))):
+            ctx.case(('planck-dtype', name, int(lo), int(step), int(n)))
+            try:
+                with np.errstate(all='ignore'):
+                    got = np.array(black_body(g, T), float)
+            except Exception as e:
+                ctx.violation('planck-dtype-raises:' + name, 'black_body raised %r on a %s grid' % (e, name),
+                              replay=dict(kind='planck-dtype', dtype=name, grid=grid, T=T))
+                continue
+            rtol = 1e-5 if name == 'float32' else 1e-10
+            if got.shape != want.shape or not np.allclose(got, want, rtol=rtol, atol=0):
+                j = int(np.argmax(np.abs(got - want) / want)) if got.shape == want.shape else 0
+                ctx.violation('planck-dtype:' + name, 'Planck function on a %s wavenumber grid: %r at %r cm-1, T=%r; the formula '
+                              'gives %r' % (name, got.reshape(-1)[j], grid[j], T, want[j]),
+                              replay=dict(kind='planck-dtype', dtype=name, grid=grid, T=T))
+            else:
+                ctx.validated()
+            ctx.count('planck grid dtype: ' + name)
+
+
 def run(ctx):
+    planck_grid_types(ctx, rng=ctx.rng)
     C.source_tie(ctx, 'C02', [('taurex/util/emission.py', 'black_body', 'gen_black_body', ('PI', 'PLANCK', 'SPDLIGT', 'KBOLTZ'))])
     rng = ctx.rng
     obs, exprs, specs = [], [], []
